@@ -27,6 +27,7 @@ from photon_weave.photon_weave import Config
 from photon_weave.state.expansion_levels import ExpansionLevel
 from photon_weave.state.fock import Fock
 from photon_weave.state.polarization import Polarization
+from photon_weave._verif import announce as _verif_announce
 
 if TYPE_CHECKING:
     from photon_weave.operation import Operation
@@ -349,6 +350,7 @@ class Envelope:
                         jnp.abs(jnp.sum(ps, axis=self.polarization.index)).flatten()
                         ** 2
                     )
+                    _verif_announce("measure", self.fock)
                     key = C.random_key
                     choice = int(
                         jax.random.choice(
@@ -375,6 +377,7 @@ class Envelope:
                     probabilities = (
                         jnp.abs(jnp.sum(ps, axis=self.fock.index)).flatten() ** 2
                     )
+                    _verif_announce("measure", self.polarization)
                     key = C.random_key
                     choice = int(
                         jax.random.choice(
@@ -411,6 +414,7 @@ class Envelope:
                         subspace = jnp.einsum("aabc->bc", ps)
                     probabilities = jnp.diag(subspace).real
                     probabilities /= jnp.sum(probabilities)
+                    _verif_announce("measure", self.fock)
                     key = C.random_key
                     choice = int(
                         jax.random.choice(
@@ -446,6 +450,7 @@ class Envelope:
                         subspace = jnp.einsum("bcaa->bc", ps)
                     probabilities = jnp.diag(subspace).real
                     probabilities /= jnp.sum(probabilities)
+                    _verif_announce("measure", self.polarization)
                     key = C.random_key
                     choice = int(
                         jax.random.choice(
@@ -672,6 +677,7 @@ class Envelope:
                 probabilities.append(jnp.trace(prob_state).real)
 
             probs = jnp.array(probabilities) / jnp.sum(jnp.array(probabilities))
+            _verif_announce("povm", *states)
             key = C.random_key
 
             choice = int(
@@ -710,6 +716,7 @@ class Envelope:
                 subspace = jnp.einsum(einsum_trace, prob_state)
                 probabilities.append(jnp.trace(subspace).real)
             probs = jnp.array(probabilities) / jnp.sum(jnp.array(probabilities))
+            _verif_announce("povm", states[0])
             key = C.random_key
             choice = int(jax.random.choice(key, a=jnp.arange(len(operators)), p=probs))
             # Constructing post measurement state
